@@ -451,6 +451,56 @@ class C02(Check):
                                     f"wild's symbol has size {ws.size if ws else None}", {"args": args})
         return info
 
+    # Thorough tier: exhaustive enumeration of the two-definition sub-space (finite).
+    PAIR_KINDS = [("obj", "strong", False), ("obj", "weak", False), ("obj", "common", False), ("obj", "unique", True),
+                  ("obj", "strong", True), ("so", "strong", False), ("so", "weak", False), ("ar", "strong", False),
+                  ("ar", "weak", False)]
+
+    def enumerate_pairs(self):
+        for ka, sa, ca in self.PAIR_KINDS:
+            for kb, sb, cb in self.PAIR_KINDS:
+                for size_b in (4, 16):
+                    if sb != "common" and size_b != 4:
+                        continue
+                    for ref_weak in (False, True):
+                        for ref_pos in (0, 2):
+                            for muldefs in (0, 3):
+                                if muldefs and not (sa == sb == "strong"):
+                                    continue
+                                fa = {"kind": ka, "defs": [[0, sa, "default", 8, ca]], "refs": []}
+                                fb = {"kind": kb, "defs": [[0, sb, "default", size_b, cb]], "refs": []}
+                                fr = {"kind": "obj", "defs": [], "refs": [[0, ref_weak]]}
+                                files = [fa, fb]
+                                files.insert(ref_pos, fr)
+                                raw = {"kinds": ["data", "data"], "files": files, "muldefs": muldefs, "pie": False,
+                                       "undef_ok": True, "filler": [[0, "strong"]] * 4}
+                                yield normalize(raw)
+
+    def extra_phases(self, tier, seed, stats):
+        if tier != "thorough":
+            return
+        import os
+        import shutil
+        from vlib.core import Ctx, evaluate, load_known
+        scratch = os.path.join(os.environ.get("VERIF_SCRATCH", "/dev/shm"), f"verif-{os.getpid()}-x")
+        os.makedirs(scratch, exist_ok=True)
+        ctx = Ctx(self, tier, scratch)
+        known = load_known(self.prop)
+        n = 0
+        try:
+            for case in self.enumerate_pairs():
+                n += 1
+                try:
+                    evaluate(self, case, ctx, stats, known)
+                except Violation as v:
+                    v.case = case
+                    raise
+        finally:
+            ctx.cleanup()
+            shutil.rmtree(scratch, ignore_errors=True)
+            stats.extra["exhaustive_two_definition_cases"] = n
+            stats.extra["exhaustive"] = True
+
     def excluded_by_construction(self, case):
         m = model(case)
         if not m["error"] and weak_lazy_sites(case, m):
